@@ -118,7 +118,9 @@ func (ex *Exec) callValue(s *State, fr *Frame, instr ssa.Value, cc *ssa.CallComm
 		model = ex.Models["intrinsic:"+fn.Name()]
 	}
 	if model == nil {
-		model = ex.Models[name]
+		if _, replaced := ex.ReplaceByGo[name]; !replaced { // a Go-source replacement wins over a built-in model
+			model = ex.Models[name]
+		}
 	}
 	var mret Value
 	var mfork *Fork
